@@ -178,6 +178,15 @@ pub fn configs(ctx: &Ctx) -> Vec<DistSpec> {
     for l in [1.8e19, 1.844e19, 1e17] {
         v.push(DistSpec::f(Family::Poisson, Scalar::F64, &[l]));
     }
+    // the infinite results the documentation names: Exp(0), Gamma with an infinite
+    // parameter (must be +inf, never NaN)
+    for s in [Scalar::F32, Scalar::F64] {
+        v.push(DistSpec::f(Family::Exp, s, &[0.0]));
+        for shape in [0.005, 0.04, 0.1, 0.5, 1.0, 2.0, 100.0] {
+            v.push(DistSpec::f(Family::Gamma, s, &[shape, f64::INFINITY]));
+        }
+        v.push(DistSpec::f(Family::Gamma, s, &[f64::INFINITY, 2.0]));
+    }
     v.extend(env::geom_specs());
     v.extend(env::weighted_specs());
     if ctx.property == "C05" {
